@@ -165,7 +165,34 @@ class Results(Part):
                     bad(f'memory_values_wrong:{self.cls(case)}', f'[{cfg}] stored x/y differ from the values the solver held')
                 if case['store_f'] and not np.array_equal(np.array(ts.f), np.array([rec[j][3] for j in keep])):
                     bad('memory_f_wrong', f'[{cfg}] stored f differs from the solver values')
-            # queries
+            # queries through the in-memory plotter (the path behind TDS.plt.plot(variable)), with and without a selection
+            if len(keep) and case['sys'] == 'kundur':
+                try:
+                    ss.TDS.load_plotter()
+                    plt_ = ss.TDS.plt
+                    full_x = np.array([rec[j][1] for j in keep])
+                    full_y = np.array([rec[j][2] for j in keep])
+                    for var in (ss.GENROU.omega, ss.GENROU.delta, ss.Bus.v, ss.Bus.a, ss.GENROU.vd):
+                        addrs = np.asarray(var.a, dtype=int)
+                        sel = set(xidx if var.v_code == 'x' else yidx)
+                        want_cols = [int(a) for a in addrs if int(a) in sel]
+                        idx = plt_._process_yidx(var, None)
+                        idx = [] if idx is None else list(np.atleast_1d(idx))
+                        if len(idx) != len(want_cols):
+                            bad(f'plotter_query_wrong_columns:{"output" if ss.Output.n else "all"}', f'[{cfg}] plotter maps '
+                                f'{var.owner.class_name}.{var.name} to {len(idx)} columns, {len(want_cols)} of its addresses are stored')
+                            continue
+                        if not idx:
+                            continue
+                        got = np.asarray(plt_.get_values(idx))
+                        src = full_x if var.v_code == 'x' else full_y
+                        if got.shape != (len(keep), len(want_cols)) or not np.array_equal(got, src[:, want_cols]):
+                            bad(f'plotter_query_wrong_values:{"output" if ss.Output.n else "all"}:{var.v_code}', f'[{cfg}] values the '
+                                f'plotter returns for {var.owner.class_name}.{var.name} are not the simulated ones')
+                except Exception as e:
+                    import traceback
+                    tb = traceback.extract_tb(e.__traceback__)
+                    bad(f'plotter_query_raises:{type(e).__name__}@{tb[-1].name if tb else "?"}', f'[{cfg}] {type(e).__name__}: {e}')
             if len(keep) and case['sys'] == 'kundur' and ss.Output.n == 0:
                 d = ts.get_data(ss.GENROU.omega)
                 a = np.asarray(ss.GENROU.omega.a, dtype=int)
